@@ -549,3 +549,102 @@ Proof.
       assert (Ev : jv = vv). { destruct jv, vv; cbn in *. f_equal; congruence. }
       cbn; rewrite Ev; reflexivity.
 Qed.
+
+(* ---------- C13, converse: an accepted message passes the two-stage path in its honest wire form ---------- *)
+Lemma accepts_strip net cm m :
+  accepts net cm None m = true -> wf_chain (v_value (g_vote m)) ->
+  accepts net cm (Some (snd (strip m))) (fst (strip m)) = true.
+Proof.
+  intros Ha Hw. unfold strip. cbn [fst snd].
+  set (k := if ch_is_zero (v_value (g_vote m)) then 0 else ck (v_value (g_vote m))).
+  assert (Hk : k = ck (v_value (g_vote m))).
+  { unfold k, ch_is_zero. destruct (ck (v_value (g_vote m)) =? 0) eqn:E; [apply Z.eqb_eq in E; congruence|reflexivity]. }
+  unfold accepts in *. cbn [g_sender g_vote g_sig g_ticket g_just].
+  destruct (lookup_member (cm_members cm) (g_sender m)) as [mem|]; [|discriminate Ha].
+  set (v' := if ch_is_zero (v_value (g_vote m)) then g_vote m else set_value (g_vote m) zero_chain).
+  assert (Hv : v_inst v' = v_inst (g_vote m) /\ v_round v' = v_round (g_vote m) /\ v_phase v' = v_phase (g_vote m) /\
+               v_supp v' = v_supp (g_vote m) /\ cvalid (v_value v') = true).
+  { unfold v'. destruct (ch_is_zero (v_value (g_vote m))) eqn:Ez; [|repeat split].
+    repeat split. unfold ch_is_zero in Ez. apply Z.eqb_eq in Ez. rewrite (Hw Ez). reflexivity. }
+  destruct Hv as (V1 & V2 & V3 & V4 & V5). rewrite V1, V2, V3, V4, V5.
+  assert (Hb : (k =? 0) = ch_is_zero (v_value (g_vote m))) by (rewrite Hk; reflexivity).
+  rewrite Hb, Hk.
+  destruct (negb (m_power mem =? 0)); [|discriminate Ha].
+  destruct (cvalid (v_value (g_vote m))); [|discriminate Ha]. cbn [andb] in *.
+  match type of Ha with (?a && ?b && ?c') = true => destruct a; [|discriminate Ha]; destruct b; [|discriminate Ha] end.
+  cbn [andb] in *.
+  match goal with |- (if ?b then _ else _) = true => destruct b end.
+  - (* justification required *)
+    unfold just_accepts in *. cbn [g_just g_vote].
+    destruct (g_just m) as [j|]; [|discriminate Ha].
+    assert (Hcore : forall j', v_inst (j_vote j') = v_inst (j_vote j) -> v_round (j_vote j') = v_round (j_vote j) ->
+                 v_phase (j_vote j') = v_phase (j_vote j) -> v_supp (j_vote j') = v_supp (j_vote j) ->
+                 (cvalid (v_value (j_vote j)) = true -> cvalid (v_value (j_vote j')) = true) ->
+                 (forall e, just_sig_ok net cm j' e = just_sig_ok net cm j e) ->
+                 (v_inst (g_vote m) =? v_inst (j_vote j')) && (v_supp (g_vote m) =? v_supp (j_vote j')) && cvalid (v_value (j_vote j')) &&
+                 match expectation (v_phase (g_vote m)) (v_round (g_vote m)) (v_phase (j_vote j')) (ck (v_value (g_vote m))) with
+                 | Some (rd, ekey) => (match rd with Some r => v_round (j_vote j') =? r | None => true end) && true && just_sig_ok net cm j' ekey
+                 | None => false end = true).
+    { intros j' J1 J2 J3 J4 J5 J6. rewrite J1, J2, J3, J4.
+      destruct (v_inst (g_vote m) =? v_inst (j_vote j)); [|discriminate Ha].
+      destruct (v_supp (g_vote m) =? v_supp (j_vote j)); [|discriminate Ha].
+      destruct (cvalid (v_value (j_vote j))) eqn:Ecv; [|discriminate Ha]. rewrite (J5 eq_refl). cbn [andb] in *.
+      destruct (expectation _ _ _ _) as [[rd ekey]|]; [|discriminate Ha].
+      rewrite J6.
+      destruct (match rd with Some r => v_round (j_vote j) =? r | None => true end); [|discriminate Ha].
+      cbn [andb] in *. destruct (ck (v_value (j_vote j)) =? ekey); [exact Ha|discriminate Ha]. }
+    destruct (ch_is_zero (v_value (j_vote j))); rewrite ?V1, ?V2, ?V3, ?V4.
+    + apply (Hcore j); auto.
+    + apply (Hcore (set_just_value j zero_chain)); auto.
+  - cbn [g_just]. destruct (g_just m); [discriminate Ha|reflexivity].
+Qed.
+
+Lemma fully_validate_accepted net cm p lb m :
+  accepts net cm None m = true -> by_progress p lb m = None ->
+  fully_validate p lb m (ck (v_value (g_vote m))) = VOk.
+Proof.
+  intros Ha Hp. apply accepts_sound in Ha. destruct Ha as [_ Hwf _ Hj].
+  unfold fully_validate. rewrite Hwf, Z.eqb_refl, Hp. cbn [negb].
+  destruct (g_just m) as [j|] eqn:Ej.
+  - destruct (needs_just (g_vote m)); [|discriminate Hj].
+    destruct Hj as (j0 & E & [_ _ _ Hs _]). injection E as <-.
+    assert (Hz : ((ck (v_value (g_vote m)) =? 0) && (negb (ch_is_zero (v_value (g_vote m))) || negb (ch_is_zero (v_value (j_vote j))))) = false).
+    { unfold ch_is_zero. destruct (ck (v_value (g_vote m)) =? 0) eqn:E0; [|reflexivity]. apply Z.eqb_eq in E0. cbn.
+      destruct Hs as [(_ & _ & [[_ B]|[_ B]])|[(_ & _ & _ & B)|(_ & _ & B)]]; rewrite B, ?E0; reflexivity. }
+    rewrite Hz.
+    destruct Hs as [(Hp' & _ & [[A B]|[A B]])|[(Hp' & _ & A & B)|(Hp' & A & B)]].
+    + assert (E23 : ((v_phase (g_vote m) =? 2) || (v_phase (g_vote m) =? 3)) = true) by (destruct Hp' as [->| ->]; reflexivity).
+      rewrite E23, A. cbn. rewrite B. reflexivity.
+    + assert (E23 : ((v_phase (g_vote m) =? 2) || (v_phase (g_vote m) =? 3)) = true) by (destruct Hp' as [->| ->]; reflexivity).
+      rewrite E23, A. cbn. rewrite B, Z.eqb_refl. reflexivity.
+    + rewrite Hp', A. cbn. rewrite B, Z.eqb_refl. reflexivity.
+    + rewrite Hp', A. cbn. rewrite B, Z.eqb_refl. reflexivity.
+  - rewrite andb_false_r || idtac.
+    destruct ((ck (v_value (g_vote m)) =? 0) && (negb (ch_is_zero (v_value (g_vote m))) || false)) eqn:Hz; [|reflexivity].
+    apply andb_prop in Hz. destruct Hz as [H0 H1]. rewrite orb_false_r in H1. unfold ch_is_zero in H1. rewrite H0 in H1. discriminate H1.
+Qed.
+
+(* C13: ... and it accepts every message that one-shot validation accepts, presented in its honest wire form *)
+Theorem two_stage_complete net cmts cm c p lb m :
+  CacheOK net cmts c -> cmts (v_inst (g_vote m)) = Some cm ->
+  accepts net cm None m = true -> by_progress p lb m = None ->
+  wf_chain (v_value (g_vote m)) -> (forall j, g_just m = Some j -> wf_chain (v_value (j_vote j))) ->
+  fst (two_stage net (Some cm) c p lb (fst (strip m)) (snd (strip m)) (v_value (g_vote m))) = VOk.
+Proof.
+  intros HC Hcm Ha Hp Hw Hwj.
+  pose proof (strip_complete_id net cm m Ha Hw Hwj) as Hid.
+  pose proof (accepts_strip net cm m Ha Hw) as Hs.
+  assert (Hinst : v_inst (g_vote (fst (strip m))) = v_inst (g_vote m)).
+  { unfold strip. cbn. destruct (ch_is_zero (v_value (g_vote m))); reflexivity. }
+  assert (Hbp : by_progress p lb (fst (strip m)) = None).
+  { unfold by_progress in *. unfold strip. cbn [fst g_vote].
+    destruct (ch_is_zero (v_value (g_vote m))); exact Hp. }
+  unfold two_stage, partially_validate. rewrite Hbp.
+  assert (Hcm' : cmts (v_inst (g_vote (fst (strip m)))) = Some cm) by (rewrite Hinst; exact Hcm).
+  pose proof (validate_with_key_verdict net cmts cm c (Some (snd (strip m))) (fst (strip m)) HC Hcm') as Hv.
+  destruct (validate_with_key net (Some cm) c (Some (snd (strip m))) (fst (strip m))) as [v c1]. cbn [fst] in Hv.
+  rewrite Hs in Hv. subst v. cbn [fst]. rewrite Hid.
+  assert (Hk : snd (strip m) = ck (v_value (g_vote m))).
+  { unfold strip. cbn [snd]. unfold ch_is_zero. destruct (ck (v_value (g_vote m)) =? 0) eqn:E; [apply Z.eqb_eq in E; congruence|reflexivity]. }
+  rewrite Hk. apply (fully_validate_accepted net cm); assumption.
+Qed.
